@@ -2,10 +2,16 @@ import BlockModes.Glue.Api
 import BlockModes.Glue.Async
 import BlockModes.Impl.Cts
 import BlockModes.Lemmas.Chunks
+import BlockModes.Lemmas.MemCtsApi
+import BlockModes.Lemmas.Chk
+import BlockModes.Thm.C08
 /-
   C13 — bad lengths are rejected without side effects.
-  Decision logic stated outright for the fallible entry points (this section).  Absence of panics for
-  the index arithmetic of /repo is the `Chk` section (work in progress).
+  Decision logic stated outright for the fallible entry points; absence of panics for the index arithmetic of
+  the ciphertext-stealing code (`cts/src/*.rs`: `buf.len() - bs`, `blocks.len() - 1`, `split_at`, `[..bs]`,
+  `[n..]`, `try_into().unwrap()`, `copy_from_slice`, `last_mut().unwrap()`, `split_last_mut().unwrap()`) is
+  proved on the checked memory-level mirror `Impl/MemCts.lean`, where each of those operations is an `Option`
+  step that fails exactly when the Rust operation panics.
 -/
 namespace Thm.C13
 open Api Impl
@@ -40,6 +46,89 @@ theorem cts_b2b_err_iff (bs : Nat) (f : Bytes → Bytes) (inp out : Bytes) :
       have h2' : ¬ out.length < bs := by omega
       exact ⟨f inp, by simp [b2b, Cts.gated, h1, h2'], h1, by omega⟩
   · left; simp [b2b, h1]
+
+/-! ### ciphertext stealing on the checked memory-level mirror: never a panic, `Err` iff the contract is violated,
+    and on `Err` the caller's buffer is exactly what it was -/
+
+open Impl.MemCts in
+/-- **CTS in place, all twelve calls, every block size ≥ 1, every width, every buffer length (0 included)**:
+    the outcome is `Err` with the buffer untouched iff the buffer is shorter than one block, and otherwise `Ok`
+    — in particular it is never `panic`. -/
+theorem cts_inplace_total (o : MemCts.Op) (C : Cipher) (hC : C.Valid) (w : Nat) (iv : Bytes) (hiv : iv.length = C.bs)
+    (buf : Bytes) :
+    inplaceCall C.bs (o.mem C w iv) buf = (if buf.length < C.bs then .err buf else .ok (o.val C w iv buf)) :=
+  inplaceCall_eq o C hC w iv hiv buf
+
+open Impl.MemCts in
+/-- **CTS buffer-to-buffer**: `Err` with the output buffer untouched iff the two lengths differ or the input is
+    shorter than one block; otherwise `Ok`; never `panic`, whatever the two lengths are. -/
+theorem cts_b2b_total (o : MemCts.Op) (C : Cipher) (hC : C.Valid) (w : Nat) (iv : Bytes) (hiv : iv.length = C.bs)
+    (inp out : Bytes) :
+    b2bCall C.bs (o.mem C w iv) inp out =
+      (if inp.length ≠ out.length ∨ inp.length < C.bs then .err out else .ok (o.val C w iv inp)) :=
+  b2bCall_eq o C hC w iv hiv inp out
+
+open Impl.MemCts in
+/-- corollary: no CTS call panics. -/
+theorem cts_never_panics (o : MemCts.Op) (C : Cipher) (hC : C.Valid) (w : Nat) (iv : Bytes) (hiv : iv.length = C.bs)
+    (inp out : Bytes) :
+    inplaceCall C.bs (o.mem C w iv) inp ≠ .panic ∧ b2bCall C.bs (o.mem C w iv) inp out ≠ .panic := by
+  rw [inplaceCall_eq o C hC w iv hiv, b2bCall_eq o C hC w iv hiv]
+  constructor <;> split <;> simp
+
+/-- the checked mirror is not vacuous: a closure run on a buffer *shorter* than one block (which the gate
+    keeps out) does hit an out-of-range operation — the model can express the panic the gate prevents. -/
+example : MemCts.Op.cbc1d.mem (Toy.cipher [1,2,3,4,5,6,7,8,9,10,11,12,13,14,15,16] 4) 1 [0, 0, 0, 0]
+    (IOBuf.inplace [1, 2, 3]) = none := by decide
+
+/-! ### the other places with index arithmetic (checked mirrors in `Impl/Chk.lean`) -/
+
+/-- **buffered CFB never panics**: from a fresh instance, any sequence of `encrypt`/`decrypt` calls on pieces of any
+    lengths (empty ones included), every block size ≥ 1: each checked call succeeds and equals the unchecked mirror
+    (`bs - pos`, `iv[pos..pos+n]`, `split_at_mut(bs - pos)`, `iv[pos..]`, `chunks_exact_mut(bs)` all stay in range). -/
+theorem cfbbuf_never_panics (dec : Bool) (C : Cipher) (hC : C.Valid) (iv : Bytes) (hiv : iv.length = C.bs) :
+    ∀ (pieces : List Bytes) (s : CfbBuf.St) (a : Spec.RS), CfbBuf.Rel C s a → a.ch.length = C.bs →
+      ∀ p ∈ pieces.zipIdx, ∃ s' a', CfbBuf.Rel C s' a' ∧
+        Chk.bufProcess? dec C s' p.1 = some (C08.bufCall dec C s' p.1) ∧
+        s' = (C08.bufRun dec C s (pieces.take p.2)).2 := by
+  intro pieces s a hR hch p hp
+  have hrel := C08.bufRun_refines dec C hC (pieces.take p.2) s a hR hch
+  refine ⟨_, _, hrel.2, ?_, rfl⟩
+  rw [Chk.bufProcess?_eq dec C _ (Chk.bufInv_of_rel C _ _ hrel.2)]
+  rfl
+
+/-- one checked call from any reachable state (the form used above), and the witness that the model can express
+    the panic C13 excludes: a cursor beyond the block (not a valid exported state, DESIGN §7 O3) fails. -/
+theorem cfbbuf_call_ok (dec : Bool) (C : Cipher) (s : CfbBuf.St) (a : Spec.RS) (h : CfbBuf.Rel C s a) (data : Bytes) :
+    Chk.bufProcess? dec C s data = some (C08.bufCall dec C s data) := by
+  rw [Chk.bufProcess?_eq dec C s (Chk.bufInv_of_rel C s a h)]; rfl
+
+theorem cfbbuf_bad_state_panics (dec : Bool) (C : Cipher) (s : CfbBuf.St) (h : C.bs < s.pos) (data : Bytes) :
+    Chk.bufProcess? dec C s data = none := Chk.bufProcess?_bad_pos dec C s h data
+
+/-- **CFB-8 never panics, every block size ≥ 1**: the feedback-register index loop
+    `for i in 0..n-1 { iv[i] = iv[i+1] }; iv[n-1] = r`, `t[..1].try_into().unwrap()` and `get_out()[0]` stay in range,
+    and the loop is the functional shift used by the recurrences of C03. -/
+theorem cfb8_never_panics (C : Cipher) (hC : C.Valid) (iv blk : Bytes) (hiv : iv.length = C.bs) (hb : blk.length = 1) :
+    Chk.cfb8Enc? C iv blk = some (Cfb8.encBlock C iv blk) ∧ Chk.cfb8Dec? C iv blk = some (Cfb8.decBlock C iv blk) :=
+  ⟨Chk.cfb8Enc?_eq C hC iv blk hiv hb, Chk.cfb8Dec?_eq C hC iv blk hiv hb⟩
+
+/-- a register shorter than the loop assumes would panic (DESIGN appendix D, mutation 6: `0..15` on `bs < 16`). -/
+example : Chk.shiftLoop? 15 0 [1, 2, 3, 4] = none := by decide
+
+/-- **IGE**: the double-length IV is split without a panic iff it has exactly two blocks. -/
+theorem ige_iv_split (C : Cipher) (iv : Bytes) :
+    (iv.length = 2 * C.bs → Chk.igeInit? C iv = some (Ige.init C iv)) ∧
+    (iv.length ≠ 2 * C.bs → Chk.igeInit? C iv = none) :=
+  ⟨Chk.igeInit?_eq C iv, Chk.igeInit?_none C iv⟩
+
+/-- **counters**: `MAX - ctr` (CTR) and `u128::MAX - (s - s_init)` (BelT) never underflow at any counter position,
+    and `from_nonce`'s chunk slicing stays inside the block. -/
+theorem counters_never_panic (f : Spec.Flavor) (cn : Ctr.St) (h : cn.ctr < 2 ^ f.w) (st : Belt.St)
+    (block : Bytes) (i : Nat) (hi : f.cs * i + f.cs ≤ block.length) :
+    Chk.ctrRemaining? f cn = some (Ctr.remaining f cn) ∧ Chk.beltRemaining? st = some (Belt.remaining st) ∧
+    Chk.ctrChunk? block f.cs i = some (rng block (f.cs * i) f.cs) :=
+  ⟨Chk.ctrRemaining?_eq f cn h, Chk.beltRemaining?_eq st, Chk.ctrChunk?_eq block f.cs i hi⟩
 
 /-- padded decryption of a length that is not a multiple of the block size is an error (for a positive
     block size). -/
